@@ -545,6 +545,13 @@ fn main() {
             for (f, cj) in schema_case(&w, &mut rep, &zone0, steps) {
                 rep.violation(&f.rule, &f.sig, cj, f.expected, f.observed);
             }
+        } else if kind == "readonly-store" {
+            // the refused updates are not part of the verdict; a few restarts of the read-only store
+            for _ in 0..4 {
+                for (f, cj) in readonly_case(&w, &mut rep, &zone0, &mut rng) {
+                    rep.violation(&f.rule, &f.sig, cj, f.expected, f.observed);
+                }
+            }
         } else {
             for (f, cj) in check_history(&w, &mut rep, &zone0, Some(&hist), &mut rng, 0, Some((&kind, k)), Some(&cont), 1) {
                 rep.violation(&f.rule, &f.sig, cj, f.expected, f.observed);
@@ -577,6 +584,18 @@ fn main() {
             for (f, cj) in schema_case(&w, &mut rep, &z, steps) {
                 rep.violation(&f.rule, &f.sig, cj, f.expected, f.observed);
             }
+        }
+    }
+
+    // read-only stores (allow_update = false) with a journal
+    let n_ro = ctx.budget(160, 4_000);
+    rep.must("readonly_store_restarts", 30);
+    for _ in 0..n_ro {
+        let mut r = rng.fork();
+        let mut zone0 = gen_zone(&mut r);
+        fix_serial(&mut zone0, &mut r);
+        for (f, cj) in readonly_case(&w, &mut rep, &zone0, &mut r) {
+            rep.violation(&f.rule, &f.sig, cj, f.expected, f.observed);
         }
     }
 
@@ -617,6 +636,74 @@ fn fix_serial(z: &mut Zone, r: &mut Rng) {
 
 /// journal left behind by a stop after `steps` statements of the schema set-up (0 = empty file);
 /// nothing was ever acknowledged and the zone file is intact: recovery must give the zone file's zone
+/// A store configured with `allow_update = false` still gets a journal (try_from_config creates it on the
+/// first start and prefers it over the zone file on every later start). Its update history consists of
+/// refused updates only, so after any number of restarts the zone must be the zone file's zone, serial
+/// included; and when the operator later switches updates on, the first update applies to that zone.
+fn readonly_case(w: &Work, rep: &mut Reporter, zone0: &Zone, rng: &mut Rng) -> Vec<(Finding, Value)> {
+    let mut out = Vec::new();
+    let env = &w.cut;
+    let _ = std::fs::remove_file(env.dir.join("z.jrnl"));
+    for side in ["z.jrnl-journal", "z.jrnl-wal", "z.jrnl-shm"] {
+        let _ = std::fs::remove_file(env.dir.join(side));
+    }
+    env.write_zone(&zone_text(zone0));
+    env.allow_update.set(false);
+    let restarts = rng.urange(1, 3);
+    let refused = rng.urange(0, 2);
+    let cj = json!({"zone": zone_json(zone0), "zone_text": zone_lines(zone0), "history": [], "kind": "readonly-store", "k": 0, "restarts": restarts, "refused_updates": refused});
+    let mut push = |out: &mut Vec<(Finding, Value)>, rule: &str, sig: &str, expected: Value, observed: Value| {
+        out.push((Finding { rule: rule.into(), sig: sig.into(), k: 0, m: 0, expected, observed }, cj.clone()));
+    };
+    let first = mon::catch(|| w.rt.block_on(env.open("z.jrnl", AxfrPolicy::Deny)));
+    let Ok(Ok(h)) = first else {
+        env.allow_update.set(true);
+        return out; // a store that does not start at all is not this case's subject (C20 / config)
+    };
+    let h = Arc::new(h);
+    let s0 = snapshot(&w.rt, &h);
+    // updates that the store refuses (not judged here: C13/C12), sent through the real path
+    let cat = catalog_for(&h);
+    for _ in 0..refused {
+        let m = gen_message(rng, &s0.to_zone());
+        let _ = send(&w.rt, &cat, &wire_of(77, &m));
+    }
+    let after_refused = snapshot(&w.rt, &h);
+    drop(cat);
+    drop(h);
+    rep.eval();
+    rep.count("readonly_store_cases");
+    rep.count("window/readonly-store");
+    rep.nontrivial(fnv64(format!("readonly|{}|{restarts}|{refused}", zone_text(zone0)).as_bytes()));
+    if after_refused.rrs != s0.rrs || after_refused.serial != s0.serial {
+        // a refused update changed the zone: C13's subject, not judged here
+        env.allow_update.set(true);
+        return out;
+    }
+    for n in 0..restarts {
+        match recover(&w.rt, env) {
+            Recovered::Ok(s, _) => {
+                rep.count("readonly_store_restarts");
+                if s.rrs != s0.rrs || s.serial != s0.serial {
+                    let symptom = if s.rrs.is_empty() { "zone-empty" } else if s.rrs != s0.rrs { "zone-differs" } else { "serial-differs" };
+                    push(&mut out, "recovered-state", &format!("readonly-store:{symptom}"), json!({"serial": s0.serial, "zone": s0.lines()}), json!({"restart": n + 1, "serial": s.serial, "zone": s.lines()}));
+                    break;
+                }
+            }
+            Recovered::Err(e) => {
+                push(&mut out, "recovery-ok", "readonly-store:recovery-error", json!("try_from_config returns Ok"), json!({"restart": n + 1, "error": e}));
+                break;
+            }
+            Recovered::Panic(p) => {
+                push(&mut out, "recovery-ok", "readonly-store:recovery-panic", json!("try_from_config returns Ok"), json!({"restart": n + 1, "panic": p}));
+                break;
+            }
+        }
+    }
+    env.allow_update.set(true);
+    out
+}
+
 fn schema_case(w: &Work, rep: &mut Reporter, zone0: &Zone, steps: usize) -> Vec<(Finding, Value)> {
     let mut out = Vec::new();
     w.cut.write_zone(&zone_text(zone0));
